@@ -2,11 +2,11 @@ SPECIFICATION Spec
 CONSTANTS
   NG = 1
   NO = 1
-  ND = 1
+  ND = 3
   NP = 1
   Names = {"a"}
-  Vals = {1, 2}
-  Acts = {"CreateGroup", "CreateObject", "AddData", "Rename", "SetVal", "Move", "AddToGroup", "RemoveFromGroup", "RemovePG", "RemoveViaWorkspace", "RemoveViaParent", "DropRef", "Collect", "Purge", "LookupDead", "Copy", "Close", "Open", "MoveSame", "CreateDeferred", "AddDataFails"}
+  Vals = {1}
+  Acts = {"CreateGroup", "CreateObject", "AddComment", "AddFile", "AddData", "Copy", "Move", "RemoveViaWorkspace", "RemoveViaParent", "Close", "Open", "Collect", "DropRef"}
   Deviations = {"CloseKeepsOrphans"}
   MaxDepth = 6
 CONSTRAINT DepthBound
